@@ -1,7 +1,7 @@
 (* Model of two re-notations on rendering-level scores (integer ticks):
    Note/Melody/Chord/Score.to_absolute_note and
    pattern_analyzer.inverse_recursive_correct_octave (Chord/Score.correct_chord_octave). *)
-From ML Require Import Model.Types gen.Tables Model.Pitch Model.Rel Model.Ton Model.Render Model.Slice.
+From ML Require Import Model.Types gen.Tables Model.Pitch Model.Rel Model.Ton Model.Render Model.Slice Model.Import.
 Open Scope Z_scope.
 Open Scope list_scope.
 
@@ -82,3 +82,30 @@ Definition check_to_absolute (x : rscore * option rscore) : bool :=
   let '(s, r) := x in option_eqb rscore_eqb (score_to_absolute s) r.
 Definition check_correct_octave (x : rscore * option rscore) : bool :=
   let '(s, r) := x in option_eqb rscore_eqb (score_correct_octave s) r.
+
+(* ---- Note.to_standard_note: a chord tone / bass tone written as the scale (or chromatic) note of _chord_notes_calc it
+   stands for, moved by the octaves it counts; an absolute note re-notated with Chord.parse; other notes kept ---- *)
+Definition candidate_note (l : list (Z * pnote)) (n : pnote) : option pnote :=
+  let m := zlen l in
+  if m =? 0 then None                                              (* ZeroDivisionError *)
+  else
+    let x := snd (nth (Z.to_nat (pval n mod m)) l (0, plain KS 0 0)) in
+    Some (note_o x (pval n / m + poct n)).
+
+Definition note_to_standard (c : chord) (n : pnote) : option pnote :=
+  match pkind n, pdir n with
+  | KC, Abs => do l <- chord_notes_calc c (root_figure (fig (cext c))) ;; candidate_note l n
+  | KB, Abs => do l <- chord_notes_calc c (fig (cext c)) ;; candidate_note l n
+  | KA, Abs => do pr <- to_pitch_abs c n ;; do p <- pr ;; parse c p    (* no mode, no accidental on the scale note *)
+  | _, _ => Some n
+  end.
+
+Definition accid_eqb (a b : accident) : bool :=
+  match a, b with
+  | AMin, AMin | AMaj, AMaj | ANat, ANat | ADim, ADim | AAug, AAug => true
+  | _, _ => false
+  end.
+Definition pn_full_eqb (a b : pnote) : bool := pn_eqb a b && option_eqb accid_eqb (pacc a) (pacc b).
+
+Definition check_to_standard (x : chord * pnote * option pnote) : bool :=
+  let '(c, n, r) := x in option_eqb pn_full_eqb (note_to_standard c n) r.
